@@ -112,6 +112,25 @@ Fixpoint hier_sym (lvls : list level) : Prop :=
     end /\ hier_sym rest
   end.
 
+Lemma hier_sym_mid (l nxt : level) (rest : list level) :
+  sweep_ok (nrows (lA l)) (lpre l) -> sweep_ok (nrows (lA l)) (lpost l) ->
+  wf (lA l) = true -> sym_mat (nrows (lA l)) (lA l) ->
+  sweep_cons (nrows (lA l)) (lA l) (lpost l) -> sweep_adj (nrows (lA l)) (lpre l) (lpost l) ->
+  wf (lR l) = true -> wf (lP l) = true ->
+  nrows (lR l) = nrows (lA nxt) -> nrows (lP l) = nrows (lA l) ->
+  transp (nrows (lA l)) (nrows (lA nxt)) (lR l) (lP l) ->
+  hier_sym (nxt :: rest) -> hier_sym (l :: nxt :: rest).
+Proof.
+  intros H1 H2 H3 H4 H5 H6 H7 H8 H9 H10 H11 H12.
+  change (sweep_ok (nrows (lA l)) (lpre l) /\ sweep_ok (nrows (lA l)) (lpost l) /\
+    wf (lA l) = true /\ sym_mat (nrows (lA l)) (lA l) /\
+    sweep_cons (nrows (lA l)) (lA l) (lpost l) /\ sweep_adj (nrows (lA l)) (lpre l) (lpost l) /\
+    (wf (lR l) = true /\ wf (lP l) = true /\
+     nrows (lR l) = nrows (lA nxt) /\ nrows (lP l) = nrows (lA l) /\
+     transp (nrows (lA l)) (nrows (lA nxt)) (lR l) (lP l)) /\ hier_sym (nxt :: rest)).
+  tauto.
+Qed.
+
 Lemma hier_sym_wf lvls : hier_sym lvls -> hier_wf lvls.
 Proof.
   induction lvls as [|l rest IH]; intro H; [exact I|].
@@ -539,16 +558,90 @@ Proof.
     pose proof (build_head ce dc ml cop ts' A2 (Datatypes.S nlev)) as Hhd.
     destruct (build ce dc ml cop ts' A2 (Datatypes.S nlev)) as [|nxt tl]; [destruct Hhd|].
     simpl in Hhd.
-    cbn [map hier_sym]. cbn [map] in IH.
-    cbn [instantiate lA lR lP lpre lpost].
-    rewrite (inst_lA mk_relax mk_solve), Hhd, N2.
+    cbn [map] in *.
     destruct (relax_ok A) as [Ho1 Ho2]. destruct (relax_sym A WA) as [Hc1 Hc2].
-    split; [exact Ho1|]. split; [exact Ho2|]. split; [exact WA|]. split; [exact SA|].
-    split; [exact Hc1|]. split; [exact Hc2|]. split; [|exact IH].
-    split; [exact WR'|]. split; [exact WP'|]. split; [exact NR'|].
-    split; [unfold P'; rewrite sort_rows_nrows; exact NP|exact HT'].
+    apply hier_sym_mid; cbn [instantiate lA lR lP lpre lpost];
+      rewrite ?(inst_lA mk_relax mk_solve), ?Hhd, ?N2; try assumption.
+    unfold P'. rewrite sort_rows_nrows. exact NP.
 Qed.
 
 End Inst.
+
+(* --- closed form for the modelled smoothers --- *)
+Definition sym_kind (k : @relax_kind S) : Prop := match k with RGS => False | _ => True end.
+
+Theorem mk_relax_std_sym (k : @relax_kind S) : sym_kind k -> forall A : crs, wf A = true ->
+  sweep_cons (nrows A) A (snd (mk_relax_std k A)) /\
+  sweep_adj (nrows A) (fst (mk_relax_std k A)) (snd (mk_relax_std k A)).
+Proof.
+  intros Hk A WA. destruct k as [w| |]; cbn [mk_relax_std fst snd]; [| |destruct Hk].
+  - apply (jacobi_sym_ok w A (vzero (nrows A)) WA).
+  - apply (spai0_sym_ok A WA).
+Qed.
+
+Lemma build_no_solve ce ml cop ts : forall (A : crs) nlev A',
+  ~ In (LSolve A') (build ce false ml cop ts A nlev).
+Proof.
+  induction ts as [|t ts' IH]; intros A nlev A'; rewrite build_unfold.
+  - destruct (Nat.leb (nrows A) ce); [simpl; intros [H|[]]; discriminate|].
+    destruct (Nat.leb ml (Datatypes.S nlev)); simpl; intros [H|[]]; discriminate.
+  - destruct (Nat.leb (nrows A) ce); [simpl; intros [H|[]]; discriminate|].
+    destruct (Nat.leb ml (Datatypes.S nlev)); [simpl; intros [H|[]]; discriminate|].
+    destruct t as [[P R]|]; [|simpl; intros [H|[]]; discriminate].
+    intros [H|H]; [discriminate|]. apply (IH _ _ _ H).
+Qed.
+
+Lemma coarse_op_of_sym (sc : option S) : cop_sym (coarse_op_of sc).
+Proof. destruct sc as [s|]; [apply scaled_galerkin_cop_sym|apply galerkin_cop_sym]. Qed.
+
+Theorem std_levels_sym k ce dc ml sc ts (M : crs) : sym_kind k ->
+  wf M = true -> sym_mat (nrows M) M -> ts_sym (nrows M) ts ->
+  (forall A, In (LSolve A) (amg_init ce dc ml (coarse_op_of sc) ts M) ->
+             solve_sym (nrows A) (mk_solve_exact A)) ->
+  hier_sym (std_levels k (amg_init ce dc ml (coarse_op_of sc) ts M)).
+Proof.
+  intros Hk WM SM Hts Hsol. unfold std_levels, amg_init.
+  apply (build_hier_sym (mk_relax_std k) mk_solve_exact (mk_relax_std_ok k) (mk_relax_std_sym k Hk)
+           mk_solve_exact_ok ce dc ml (coarse_op_of sc)
+           (coarse_op_of_shape sc)).
+  - destruct sc as [s|]; [apply (scaled_galerkin_cop_wf s)|apply galerkin_cop_wf].
+  - apply coarse_op_of_sym.
+  - apply sort_rows_wf, WM.
+  - rewrite sort_rows_nrows. apply sort_rows_sym, SM.
+  - rewrite sort_rows_nrows. exact Hts.
+  - exact Hsol.
+Qed.
+
+Theorem built_apply_sym k ce dc ml sc ts (M : crs) : sym_kind k ->
+  wf M = true -> sym_mat (nrows M) M -> ts_sym (nrows M) ts ->
+  (forall A, In (LSolve A) (amg_init ce dc ml (coarse_op_of sc) ts M) ->
+             solve_sym (nrows A) (mk_solve_exact A)) ->
+  let lvls := std_levels k (amg_init ce dc ml (coarse_op_of sc) ts M) in
+  forall scr1 scr2 f g x1 x2,
+  scratch_wf lvls scr1 -> scratch_wf lvls scr2 ->
+  length f = nrows M -> length g = nrows M -> length x1 = nrows M -> length x2 = nrows M ->
+  dot (fst (apply 1 1 1 1 lvls scr1 f x1)) g = dot f (fst (apply 1 1 1 1 lvls scr2 g x2)).
+Proof.
+  intros Hk WM SM Hts Hsol lvls scr1 scr2 f g x1 x2 H1 H2 Lf Lg L1 L2.
+  pose proof (std_levels_sym k ce dc ml sc ts M Hk WM SM Hts Hsol) as Hsym.
+  destruct (amg_init_chain ce dc ml (coarse_op_of sc) ts M) as [Hc Hh].
+  destruct (std_levels_wf k _ _ (coarse_op_of_shape sc) Hc) as (_ & Hne & _).
+  assert (En : top_n lvls = nrows M).
+  { unfold lvls, std_levels. rewrite (top_n_inst _ _ _ _ Hh). apply sort_rows_nrows. }
+  apply (apply_sym lvls Hsym Hne); congruence.
+Qed.
+
+(* with direct_coarse = false no assumption on the coarse solver is left *)
+Theorem built_apply_sym_smoother_coarse k ce ml sc ts (M : crs) : sym_kind k ->
+  wf M = true -> sym_mat (nrows M) M -> ts_sym (nrows M) ts ->
+  let lvls := std_levels k (amg_init ce false ml (coarse_op_of sc) ts M) in
+  forall scr1 scr2 f g x1 x2,
+  scratch_wf lvls scr1 -> scratch_wf lvls scr2 ->
+  length f = nrows M -> length g = nrows M -> length x1 = nrows M -> length x2 = nrows M ->
+  dot (fst (apply 1 1 1 1 lvls scr1 f x1)) g = dot f (fst (apply 1 1 1 1 lvls scr2 g x2)).
+Proof.
+  intros Hk WM SM Hts. apply built_apply_sym; try assumption.
+  intros A HA. exfalso. unfold amg_init in HA. apply (build_no_solve _ _ _ _ _ _ _ HA).
+Qed.
 
 End A3.
